@@ -10,6 +10,7 @@ import (
 
 	"github.com/hashicorp/hcl-lang/schema"
 	"github.com/hashicorp/hcl/v2"
+	"github.com/zclconf/go-cty/cty"
 )
 
 type Targets []Target
@@ -32,8 +33,28 @@ func (r Targets) Len() int {
 }
 
 func (r Targets) Less(i, j int) bool {
-	return r[i].LocalAddr.String() < r[j].LocalAddr.String() ||
-		r[i].Addr.String() < r[j].Addr.String()
+	if r[i].LocalAddr.String() < r[j].LocalAddr.String() ||
+		r[i].Addr.String() < r[j].Addr.String() {
+		return true
+	}
+	if r[j].LocalAddr.String() < r[i].LocalAddr.String() ||
+		r[j].Addr.String() < r[i].Addr.String() {
+		return false
+	}
+
+	// Targets of the same address (e.g. an attribute targetable both
+	// as a reference and by the type of its value) are ordered by position,
+	// with the type-less one first, such that the result does not depend
+	// on the order in which they were collected.
+	if r[i].RangePtr != nil && r[j].RangePtr != nil {
+		if r[i].RangePtr.Filename != r[j].RangePtr.Filename {
+			return r[i].RangePtr.Filename < r[j].RangePtr.Filename
+		}
+		if r[i].RangePtr.Start.Byte != r[j].RangePtr.Start.Byte {
+			return r[i].RangePtr.Start.Byte < r[j].RangePtr.Start.Byte
+		}
+	}
+	return r[i].Type == cty.NilType && r[j].Type != cty.NilType
 }
 
 func (r Targets) Swap(i, j int) {
